@@ -305,10 +305,10 @@ def gen_history(rng, max_calls):
                 if LOCK[meth[w]] == lk:          # the real lock hands over at once
                     labels.append([1, w])
                     if meth[w] == 2:
-                        phase[w] = "done"
-                    else:
-                        owner[lk] = w
-                        phase[w] = "hold"
+                        phase[w] = "done"        # is_closed releases at once: the next waiter gets the lock too
+                        continue
+                    owner[lk] = w
+                    phase[w] = "hold"
                     break
         else:
             _, c = ch
@@ -329,8 +329,8 @@ def gen_history(rng, max_calls):
                 labels.append([1, w])
                 if meth[w] == 2:
                     phase[w] = "done"
-                else:
-                    owner[lk] = w
-                    phase[w] = "hold"
+                    continue
+                owner[lk] = w
+                phase[w] = "hold"
                 break
     return labels
